@@ -210,7 +210,9 @@ func (b *Buffer) Diff(c Consumer) (int, bool) {
 	}
 
 	// atomically checks the size of the buffer - the relative offset of the consumer
-	return len(b.buffer) - (offset + cm.offset - b.offset), true
+	diff := len(b.buffer) - (offset + cm.offset - b.offset)
+	verifPoint("buf.diff", cm, diff)
+	return diff, true
 }
 
 // Range provides a way to iterate from the start to the end of the buffer, note that it will exit as soon as it
